@@ -144,7 +144,8 @@ CHECKS["C04"] = dict(
          "times relative displacement; every equilibrium has rigid tubes sharing one displacement, disconnected tubes "
          "balanced on their own, numeric connections carrying k*(relative displacement).  The implementation's whole "
          "pipeline (network build, rigid contraction, disconnect split, assembly, Newton, copy-back) is certified against "
-         "that equilibrium for every option assignment of small receivers (exhaustive) and sampled larger ones.",
+         "that equilibrium for every option assignment of small receivers (exhaustive) and sampled larger ones, and for receivers "
+         "of elastic finite-element tubes solved by the real system and tube solvers (affine laws measured on a replay).",
     note="Uniqueness is proved for what every tube sees (C04_tube_tops_unique: with positive stiffnesses any two equilibria give "
          "every tube the same top displacement; a panel is a spring of stiffness sum k kt/(k+kt)); agreement with an independent "
          "dense direct-stiffness solve is additionally validated.  networkx and numpy.linalg.solve are certified through their "
